@@ -104,7 +104,7 @@ class NetCDFWrite(IOWrite):
 
         return self._netcdf_name(ncvar)
 
-    def _netcdf_name(self, base, dimsize=None, role=None):
+    def _netcdf_name(self, base, dimsize=None, role=None, named=False):
         """Return a new netCDF variable or dimension name.
 
         .. versionadded:: (cfdm) 1.7.0
@@ -116,6 +116,12 @@ class NetCDFWrite(IOWrite):
             dimsize: `int`, optional
 
             role: `str`, optional
+
+            named: `bool`, optional
+                If True then *base* is a name that has been set on a
+                construct, rather than a default, and an existing
+                netCDF dimension of the given role and size is only
+                returned if its name is *base*.
 
         :Returns:
 
@@ -138,6 +144,9 @@ class NetCDFWrite(IOWrite):
                 raise ValueError("Must supply role when providing dimsize")
 
             for ncdim in g["dimensions_with_role"].get(role, ()):
+                if named and ncdim != base:
+                    continue
+
                 if g["ncdim_to_size"][ncdim] == dimsize:
                     # Return the name of an existing netCDF dimension
                     # with this name, this size, and matching the
@@ -1323,16 +1332,22 @@ class NetCDFWrite(IOWrite):
         #        bounds_ncdim = self._netcdf_name('bounds{0}'.format(size),
         #                                  dimsize=size, role='bounds')
 
-        bounds_ncdim = self.implementation.nc_get_dimension(
-            bounds, f"bounds{size}"
-        )
+        bounds_ncdim = self.implementation.nc_get_dimension(bounds, None)
+
+        # If a netCDF dimension name has been set on the bounds then
+        # an existing bounds dimension of the same size is only
+        # reused if it also has that name
+        named = bounds_ncdim is not None
+        if not named:
+            bounds_ncdim = f"bounds{size}"
+
         if not g["group"]:
             # A flat file has been requested, so strip off any group
             # structure from the name.
             bounds_ncdim = self._remove_group_structure(bounds_ncdim)
 
         bounds_ncdim = self._netcdf_name(
-            bounds_ncdim, dimsize=size, role="bounds"
+            bounds_ncdim, dimsize=size, role="bounds", named=named
         )
 
         # Check if this bounds variable has not been previously
